@@ -349,9 +349,15 @@ pub fn list_dir(img: &dyn Img, fv: &FatView, loc: DirLoc) -> DirListing {
     let mut idx = 0u32;
     // pending LFN run: (ordinal expected next, csum, fragments in disk order)
     let mut run: Option<(u8, u8, Vec<[u16; 13]>)> = None;
-    for blk in &blocks {
+    // the fixed FAT16 root has exactly BPB_RootEntCnt slots; whatever else its last sector holds
+    // is not part of the directory
+    let slot_limit = if matches!(loc, DirLoc::Root) && !fv.lay.fat32 { fv.lay.root_entries } else { u32::MAX };
+    'blocks: for blk in &blocks {
         let b = img.rd(*blk);
         for i in 0..16 {
+            if idx >= slot_limit {
+                break 'blocks;
+            }
             let raw: [u8; 32] = b[i * 32..i * 32 + 32].try_into().unwrap();
             if end_at.is_some() {
                 if raw.iter().any(|x| *x != 0) {
